@@ -263,6 +263,28 @@ def oracle_bytes(v) -> bytes:
     return oracle_ser(v).encode("ascii")
 
 
+BOUNDARY_SIZES = [55, 56, 63, 64, 65, 111, 112, 119, 120, 127, 128, 129, 255, 256, 1023, 1024, 4095, 4096, 4097, 8192, 16384, 32768, 65535, 65536, 65537, 131072]
+
+
+def sizes_of_interest() -> list:
+    """byte counts at which buffers, hash blocks and length fields roll over, plus the integer constants of the current source that the pinned
+    tree lacks (a block size introduced by a change) and their neighbours and small multiples"""
+    from . import mined
+    out = list(BOUNDARY_SIZES)
+    for n in mined.ints():
+        if 16 <= n <= 1 << 20:
+            out += [n - 1, n, n + 1, 2 * n, 3 * n]
+    return [n for n in dict.fromkeys(out) if 0 < n <= 1 << 21]
+
+
+def sized_payload(n: int):
+    """a JSON value whose canonical serialization is exactly n bytes long (n >= 20)"""
+    base = len(oracle_bytes({"pad": ""}))
+    if n < base:
+        return {"pad": ""}
+    return {"pad": "a" * (n - base)}
+
+
 # ---------------------------------------------------------------- keys
 
 class Key:
@@ -291,7 +313,43 @@ def gpg_digest(data: bytes, hdr: bytes) -> bytes:
     return hashlib.sha256(data + hdr + b"\x04\xff" + struct.pack(">I", len(hdr))).digest()
 
 
+def _subpacket(typ: int, body: bytes) -> bytes:
+    """RFC 4880 5.2.3.1: one-, two- or five-octet length (of type octet + body), then the type octet and the body"""
+    n = len(body) + 1
+    if n < 192:
+        ln = bytes([n])
+    elif n < 8384:
+        ln = bytes([((n - 192) >> 8) + 192, (n - 192) & 0xFF])
+    else:
+        ln = b"\xff" + struct.pack(">I", n)
+    return ln + bytes([typ]) + body
+
+
+def realistic_hdr(rng) -> bytes:
+    """a well-formed v4 hashed area as GnuPG emits it: version, type, algorithms, two-octet length, subpackets (issuer fingerprint, creation time, and
+    sometimes notation data / policy URIs long enough to need the two- or five-octet subpacket length form)"""
+    subs = [_subpacket(33, b"\x04" + bytes(rng.getrandbits(8) for _ in range(20))), _subpacket(2, struct.pack(">I", rng.getrandbits(31)))]
+    # body bytes of the long subpackets: text, or constant fills under which a reader that has lost its place in the area runs off its end
+    # (0x00 / 0x01 read as tiny lengths, 0xff / 0xc0 as the introducers of the longer length forms)
+    fill = rng.choice([None, None, 0, 0, 1, 2, 0xFF, 0xC0])
+    def body(n):
+        return bytes(rng.randrange(32, 127) for _ in range(n)) if fill is None else bytes([fill]) * n
+    r = rng.random()
+    if r < 0.6:
+        n = rng.choice([150, 186, 187, 188, 191, 192, 193, 200, 300, 447, 448, 1000])
+        name = b"note@example.org"
+        subs.append(_subpacket(20, b"\x80\x00\x00\x00" + struct.pack(">HH", len(name), n) + name + body(n)))
+    elif r < 0.7:
+        subs.append(_subpacket(26, body(rng.choice([191, 192, 8383, 8384, 9000]))))
+    if rng.random() < 0.3:
+        rng.shuffle(subs)
+    area = b"".join(subs)
+    return bytes([4, rng.choice([0, 0, 1]), 22, 8]) + struct.pack(">H", len(area) & 0xFFFF) + area
+
+
 def rand_hdr(rng) -> bytes:
+    if rng.random() < 0.4:
+        return realistic_hdr(rng)
     n = rng.choice([1, 2, 6, 35, 35, 35, 64, 255, 256, 300])
     return bytes(rng.getrandbits(8) for _ in range(n))
 
@@ -330,7 +388,9 @@ def make_entry(rng, state: str, k: Key, data: bytes, gpg: bool, other: Key):
     if state == "gpg_valid":
         return k.hex, gpg_entry(k, data, hdr)
     if state == "gpg_valid_see_also":
-        return k.hex, gpg_entry(k, data, hdr, "f075dd2f6f4cb3bd76134bbb81b6ca16ef9cd589")
+        if rng.random() < 0.7:
+            hdr = realistic_hdr(rng)
+        return k.hex, gpg_entry(k, data, hdr, hdr[9:29].hex() if (hdr[7:9] == b"\x21\x04" and len(hdr) >= 29 and rng.random() < 0.6) else "f075dd2f6f4cb3bd76134bbb81b6ca16ef9cd589")
     if state == "other_payload":
         e = raw_entry(k, data + b" ") if not gpg else gpg_entry(k, data + b" ", hdr)
         return k.hex, e
